@@ -38,6 +38,9 @@ structure ProgCfg where
   eos : Bool := false
   /-- inject one ill-formed copy (distance beyond history or dictionary) at this symbol index -/
   badAt : Option Nat := none
+  /-- when set to the dictionary size: every other time a lap boundary is within reach, end a
+  non-overlapping match exactly on it -/
+  alignTo : Option Nat := none
   deriving Repr, Inhabited
 
 def lenChoices : List Nat := [2, 2, 3, 5, 9, 10, 11, 17, 18, 19, 40, 272, 273]
@@ -78,8 +81,18 @@ def genProgAux (cfg : ProgCfg) : Nat → Nat → Rng → SpecSt → List Sym →
       (r, (sym :: acc).reverse)
     else
     let (r, k) := r.below 10
+    let toEdge := match cfg.alignTo with
+      | some d => if d = 0 then 0 else d - hl % d
+      | none => 0
+    let (r, edge) := r.below 2
     let (r, sym) : Rng × Sym :=
-      if hl = 0 ∨ k < 4 then
+      if toEdge ≥ 2 ∧ toEdge ≤ 273 ∧ edge = 0 ∧ hl > 0 then
+        -- a copy that ends exactly on the lap boundary; non-overlapping when the history allows
+        if maxd ≥ toEdge then
+          let (r, extra) := r.below (maxd - toEdge + 1)
+          (r, .mtch (toEdge + extra) toEdge)
+        else (r, .mtch maxd toEdge)
+      else if hl = 0 ∨ k < 4 then
         let (r, b) := r.below cfg.alphabet
         let (r, hi) := r.below 8
         (r, .lit (UInt8.ofNat (if hi = 0 then 255 - b else b * 37 % 256)))
@@ -172,7 +185,7 @@ def genLzmaWrapLine (seed idx : Nat) : String :=
   let dict := match dk with
     | 0 => 4096 | 1 => 4097 | _ => 5000
   let (r, ek) := r.below 2
-  let cfg : ProgCfg := { nsyms := 700, dict := dict, alphabet := 3, eos := ek = 0 }
+  let cfg : ProgCfg := { nsyms := 700, dict := dict, alphabet := 3, eos := ek = 0, alignTo := some dict }
   let (_, prog) := genProg cfg r
   let payload := encodeSyms props dict prog
   let out := (expand dict prog).getD []
@@ -317,7 +330,7 @@ def genLzma2BadLine (seed idx : Nat) : String :=
   let n := match nk with
     | 0 => 0 | 1 => 1 | 2 => 2 | _ => 4
   let (r, cs) := genChunks n 0 r (EncSt.new { lc := 0, lp := 0, pb := 0 }) true []
-  let (r, flavour) := r.below 2
+  let (r, flavour) := r.below 3
   let (r, pk) := r.below 40
   let props := lzma2Props pk
   let (r, d) := r.pick [5, 17, 300]
@@ -329,13 +342,57 @@ def genLzma2BadLine (seed idx : Nat) : String :=
     if flavour = 0 then
       -- fresh dictionary, a few literals, then a match reaching before them
       [.lzma 3 props ((lits.take 3).map Sym.lit ++ [Sym.mtch 4 2])]
-    else
+    else if flavour = 1 then
       -- establish rep0 = d - 1, reset only the dictionary with an uncompressed chunk, reuse rep0
       [.lzma 3 props (lits.map Sym.lit ++ [Sym.mtch d 2]), .raw true data, .lzma 0 props [badsym]]
+    else
+      -- the same, but the next symbol is a LITERAL: after a match it is decoded against the byte at
+      -- distance rep0 + 1, which the reset dictionary does not hold
+      [.lzma 3 props (lits.map Sym.lit ++ [Sym.mtch d 2]), .raw true data, .lzma 0 props [Sym.lit 0x33, Sym.lit 0x34]]
   let all := cs ++ tail
   let (bytes, out) := encode2 all
   s!"mat kind=lzma2bad idx={idx} nchunks={all.length} chunks={",".intercalate (all.map chunkRepr)} " ++
     s!"payload={hexOfBytes bytes} out={hexOfBytes out}"
+
+/-- size extremes of a compressed LZMA2 chunk.
+`idx % 2 = 0`: packed size exactly 65536 (field 0xFFFF): literals over a 4-letter alphabet are
+encoded one by one until the payload (with its 5-byte flush) is 65536 bytes long;
+`idx % 2 = 1`: unpacked size exactly 2 MiB (control byte 0xFF): one literal, then copies of length 273. -/
+partial def literalsUntil (target : Nat) (r : Rng) (st : EncSt) (e : REnc) (snk : Sink) (n : Nat) : Nat × EncSt × REnc × Sink :=
+  if snk.out.size + e.cachesz + 4 ≥ target ∨ n ≥ 600000 then (n, st, e, snk)
+  else
+    let (r, b) := r.below 4
+    let sym := Sym.lit (UInt8.ofNat (b * 61 + 7))
+    match encodeProg 0xFFFFFFFF [sym] st e snk with
+    | (snk', .ok (st', e')) => literalsUntil target r st' e' snk' (n + 1)
+    | (_, .error _) => (n, st, e, snk)
+
+def genLzma2BigLine (seed idx : Nat) : String :=
+  let r : Rng := { s := UInt64.ofNat (seed * 1000003 + idx * 49979687 + 13) }
+  let props : Props := { lc := 3, lp := 0, pb := 2 }
+  let st0 := EncSt.new props
+  if idx % 2 = 0 then
+    let (_, st, e, snk) := literalsUntil 65536 r st0 {} {} 0
+    match e.finish snk with
+    | (snk', .ok _) =>
+      let payload := snk'.out.toList
+      let out := st.spec.hist.toList
+      let u := out.length - 1
+      let hdr := [UInt8.ofNat (0xE0 + (u >>> 16))] ++ beBytes 2 (u % 65536) ++ beBytes 2 (payload.length - 1) ++
+        [UInt8.ofNat (props.lc + 9 * (props.lp + 5 * props.pb))]
+      -- followed by a small chunk that continues without any reset
+      let tail : List Chunk := [.lzma 0 props [Sym.lit 0x41, Sym.mtch 2 5]]
+      let (tb, tout) := encode2Aux tail { st with spec := st.spec } [] []
+      s!"mat kind=lzma2big idx={idx} what=packed65536 packed={payload.length} unpacked={out.length} " ++
+        s!"payload={hexOfBytes (hdr ++ payload ++ tb)} out={hexOfBytes (out ++ tout)}"
+    | _ => "mat kind=lzma2big idx=0 what=failed payload= out="
+  else
+    let total := 2097152
+    let nfull := (total - 1) / 273
+    let rest := (total - 1) - nfull * 273
+    let prog : List Sym := [Sym.lit 0x5A] ++ List.replicate nfull (Sym.mtch 1 273) ++ (if rest ≥ 2 then [Sym.mtch 1 rest] else List.replicate rest (Sym.lit 0x5A))
+    let (bytes, out) := encode2 [.lzma 3 props prog, .raw false [1, 2, 3]]
+    s!"mat kind=lzma2big idx={idx} what=unpacked2MiB unpacked={out.length - 3} payload={hexOfBytes bytes} outrle=5a*{out.length - 3}+010203"
 
 def generate (kind : String) (seed n : Nat) : List String :=
   (List.range n).map fun i =>
@@ -344,6 +401,7 @@ def generate (kind : String) (seed n : Nat) : List String :=
     else if kind == "lzmabad" then genBadLine seed i
     else if kind == "lzma2" then genLzma2Line seed i
     else if kind == "lzma2bad" then genLzma2BadLine seed i
+    else if kind == "lzma2big" then genLzma2BigLine seed i
     else "bad-kind"
 
 end Lzma.Gen
